@@ -109,7 +109,10 @@ def gen_seed(tier):
     return st.fixed_dictionaries({
         "seed": st.one_of(st.binary(max_size=128), st.binary(min_size=64, max_size=64),
                           st.builds(lambda z, t: (b"\x00" * z + t)[:128], st.integers(1, 8), st.binary(max_size=120)),
-                          st.builds(lambda t, z: t + b"\x00" * z, st.binary(max_size=100), st.integers(1, 8))),
+                          st.builds(lambda t, z: t + b"\x00" * z, st.binary(max_size=100), st.integers(1, 8)),
+                          # raw seeds whose bytes happen to be ASCII hex digits / whitespace
+                          st.text(alphabet="0123456789abcdefABCDEF", min_size=2, max_size=64).map(lambda t: t.encode()),
+                          st.text(alphabet="0123456789abcdef \n", min_size=1, max_size=32).map(lambda t: t.encode())),
         "testnet": st.booleans()})
 
 
